@@ -1,6 +1,6 @@
 """C04 -- the daemon runs every future occurrence exactly once, on time, in order."""
 NOTE = ("_inject_task1 -> resched/unwind_till/instant_to_tstamp -> task_cb/run_task -> chld_cb/unsched executed symbolically "
-        "for one task with NOCC symbolic occurrences (2001..2099, equal seconds allowed), a symbolic load time and NSTEP "
+        "for one task with NOCC symbolic occurrences (any second of two consecutive days, equal seconds allowed; the date arithmetic of instant_to_tstamp is a separate obligation over all of 2001..2099), a symbolic load time and NSTEP "
         "loop iterations at symbolic non-decreasing virtual times with optional child exits. Expected behaviour is "
         "computed from the ORC-cal epoch second of every occurrence: a step starts exactly one run iff at least one "
         "occurrence with load <= t < now is outstanding.")
@@ -23,6 +23,10 @@ def ob(name, nocc, nstep, **kw):
     o.update(kw)
     return o
 OBLIGATIONS = [
+    ob('tstamp_all_instants', 1, 1, defs=['NOCC=1', 'NSTEP=1', 'ORC_FAST', 'TSTAMP_ONLY'], solver='kissat', timeout=900, mem_gb=8, restrict_fp={}, replace_calls={},
+       enc=['instant_to_tstamp'], sym='the instant (date, second of day or all-day)', bounds='every instant of 2001..2099', outside='nothing within the supported range',
+       stubs=['ORC-cal oracle (validated against timegm by setup)']),
+    ob('sched_occ2_step2', 2, 2),
     ob('sched_occ2_step3', 2, 3),
     ob('sched_occ3_step4', 3, 4, tiers=('thorough',), timeout=3400, mem_gb=24),
 ]
